@@ -281,6 +281,8 @@ def step (d : DState) (args : List String) : DState × String :=
     | some id, some files => finish d (d.S.fdtComplete d.params { id := id, files := files })
     | _, _ => (d, "bad-op")
   | ["expect", _, _, _] => (d, "ok")
+  -- oracle-only op: the datagrams go to a fresh real Receiver with one of the crate's own writer builders (engine side only)
+  | ["realwriter", _, _, _] => (d, "ok")
   | ["drop"] =>
     if d.dead then (d, "dead") else
     -- the Receiver is dropped; the next packet goes to a fresh Receiver (the monitor's call counters persist)
